@@ -63,10 +63,21 @@ func (a Any) hoverIndexExprAtPos(ctx context.Context, pos hcl.Pos) (*lang.HoverD
 
 func (a Any) semanticTokensForIndexExpr(ctx context.Context) ([]lang.SemanticToken, bool) {
 	if eType, ok := a.expr.(*hclsyntax.IndexExpr); ok {
+		tokens := make([]lang.SemanticToken, 0)
+
+		// the collection may be (or contain) a reference too,
+		// e.g. keys(var.map)[var.idx] or var.nested[var.a][var.b]
+		collCons := schema.AnyExpression{
+			OfType: cty.DynamicPseudoType,
+		}
+		tokens = append(tokens, newExpression(a.pathCtx, eType.Collection, collCons).SemanticTokens(ctx)...)
+
 		cons := schema.AnyExpression{
 			OfType: cty.String, // TODO improve type (see above)
 		}
-		return newExpression(a.pathCtx, eType.Key, cons).SemanticTokens(ctx), true
+		tokens = append(tokens, newExpression(a.pathCtx, eType.Key, cons).SemanticTokens(ctx)...)
+
+		return tokens, true
 	}
 
 	return nil, false
